@@ -12,7 +12,8 @@ EXTENDS ImageCopyMC, Json
 VARIABLE hist
 gvars == <<vars, hist>>
 
-TgtRef(t) == IF t.tag # "" THEN t.tag ELSE t.node
+TgtRef(t) == t.rp \o (IF t.tag # "" THEN t.tag ELSE t.node)
+TgtObj(t) == t.rp \o t.node
 SrcRef(t) == IF t.via = "top" THEN (IF conf.byDigest THEN t.node ELSE "S")
              ELSE IF t.tag # "" THEN t.tag ELSE t.node
 ReqName(t) ==
@@ -24,15 +25,15 @@ ReqName(t) ==
     [] t.pc = "refs2"  -> <<"manifest_get", FbTag(t.node)>>
     [] t.pc = "dtagsR" -> <<"tag_list", "">>
     [] t.pc = "put"    -> <<"manifest_put", TgtRef(t)>>
-    [] t.pc = "fbget"  -> <<"manifest_get", FbTag(SubjectOf(t.node))>>
-    [] t.pc = "fbput"  -> <<"manifest_put", FbTag(SubjectOf(t.node))>>
-    [] t.pc = "bhead"  -> <<"blob_head", t.node>>
-    [] t.pc = "bmount" -> <<"mount_post", t.node>>
+    [] t.pc = "fbget"  -> <<"manifest_get", t.rp \o FbTag(SubjectOf(t.node))>>
+    [] t.pc = "fbput"  -> <<"manifest_put", t.rp \o FbTag(SubjectOf(t.node))>>
+    [] t.pc = "bhead"  -> <<"blob_head", TgtObj(t)>>
+    [] t.pc = "bmount" -> <<"mount_post", TgtObj(t)>>
     [] t.pc \in {"bmdel", "bdel"} -> <<"upload_delete", "">>
     [] t.pc \in {"bget", "brewind"} -> <<"blob_get", t.node>>
-    [] t.pc = "bpost"  -> <<"upload_post", t.node>>
+    [] t.pc = "bpost"  -> <<"upload_post", TgtObj(t)>>
     [] t.pc = "bpost2" -> <<"upload_post", "">>
-    [] t.pc \in {"bput", "bput2"} -> <<"upload_put", t.node>>
+    [] t.pc \in {"bput", "bput2"} -> <<"upload_put", TgtObj(t)>>
     [] t.pc = "bpatch" -> <<"upload_patch", "">>
     [] OTHER -> <<"", "">>
 SideOf(t) == IF SameRepo THEN "both" ELSE IF OnSrcSide(t.pc) THEN "src" ELSE "tgt"
